@@ -244,17 +244,21 @@ def judge(rx, text, fn, limit=None):
     """Run fn(text) under the step budget. Returns (outcome, fails, steps)."""
     r = _rt()
     STEPS[0] = 0
-    STEPS[1] = budget(len(text)) if limit is None else limit
+    lim = STEPS[1] = budget(len(text)) if limit is None else limit
     fails = []
     try:
         fn(text)
         out = "ok"
-    except r.TSE:
-        out = "tse"
+    except r.TSE as e:
+        out = "tse@" + exc_bucket(e).split("@", 1)[1].split(":")[0]  # which module rejected it (distribution label only)
     except StepBudgetExceeded:
         out = "budget"
         fails.append(
-            ("[%s] more than %d scanner loop iterations for an input of %d chars (budget 4000+40*n^2): %s" % (rx, budget(len(text)), len(text), _short(text)), "budget:" + rx.split(":")[0])
+            (
+                "[%s] more than %d scanner loop iterations for an input of %d chars (budget 4000+40*n^2 = %d%s): %s"
+                % (rx, lim, len(text), budget(len(text)), "" if limit is None else "; growth ladder limit 6x the half-sized input", _short(text)),
+                "budget:" + rx.split(":")[0],
+            )
         )
     except Exception as e:  # noqa - recorded as a violation, never swallowed
         out = "exc"
@@ -326,6 +330,8 @@ def run_enum(spec, col):
 
     cnt = Counter()
     best = {}
+    n_budget = 0
+    aborted = False
     for idx, s in enum_strings(alpha, length, lo, hi):
         if mode == "all":
             tags = TAG_NAMES
@@ -349,11 +355,19 @@ def run_enum(spec, col):
             cur = best.get(b)
             if cur is None or len(s) < len(cur[0]["s"]):
                 best[b] = ({"part": "str", "s": s, "tags": tags}, m)
+            if b.startswith("budget:"):
+                n_budget += 1
+        if n_budget >= 25:
+            # every such case burns its whole step budget: stop this shard early (it is then not exhaustive)
+            aborted = True
+            break
     for b, (case, m) in best.items():
         col.fail(case, m, b, finding=attribute(case, m, b))
     for k, v in cnt.items():
         col.count(k, v)
-    col.exhaustive = True
+    col.exhaustive = not aborted
+    if aborted:
+        col.notes.append("enum shard %r stopped early after 25 step-budget failures" % (spec,))
     return col
 
 
@@ -456,28 +470,40 @@ def run_growth(fam, r0, full=True):
     fails = []
     info = {"family": fam, "rx": rx, "sizes": [], "steps": [], "cpu": [], "outcome": []}
     texts = {k: _growth_text(fam, r0 * k) for k in (1, 2, 4)}
+    prev = [None]
 
-    def one(k):
+    def one(text, first_pass=True):
+        # Abort limit: the absolute budget, and (so that a hang at a large size is noticed quickly) at most 6x the steps of
+        # the previous, half-sized rung of the ladder. The verdict rule proper (steps(4n) <= 20*steps(n)) is applied below.
+        lim = budget(len(text))
+        if first_pass and prev[0] is not None:
+            lim = min(lim, 6 * max(prev[0], 2000))
         t0 = time.process_time()
-        out, f, steps = judge(rx + ":" + fam, texts[k], fn)
+        out, f, steps = judge(rx + ":" + fam, text, fn, limit=lim)
+        if first_pass:
+            prev[0] = steps
         return time.process_time() - t0, out, f, steps
 
     res = {}
-    # largest first: decides whether the clock clause is measurable at all
-    t4, out4, f4, s4 = one(4)
-    res[4] = [t4, out4, s4]
-    fails.extend(f4)
-    clock = t4 >= 0.4
-    for k in (1, 2):
-        t, out, f, s = one(k)
-        res[k] = [t, out, s]
+    # ladder of small sizes first (steps only)
+    r = max(1, r0 // 16)
+    while r < r0 and not fails:
+        _, out, f, _ = one(_growth_text(fam, r))
         fails.extend(f)
-    if clock:
+        r *= 2
+    for k in (1, 2, 4):
+        if fails:
+            res[k] = [0.0, "skipped", 0]
+            continue
+        t, out, f, st = one(texts[k])
+        res[k] = [t, out, st]
+        fails.extend(f)
+    if not fails and res[4][0] >= 0.4:  # the clock clause may be measurable: min of 3
         for _ in range(2):
             for k in (4, 2, 1):
-                t, out, f, s = one(k)
-                if s != res[k][2] or out != res[k][1]:
-                    info["nondeterministic"] = "size x%d: steps %d/%d outcome %s/%s" % (k, s, res[k][2], out, res[k][1])
+                t, out, f, st = one(texts[k], first_pass=False)
+                if st != res[k][2] or out != res[k][1]:
+                    info["nondeterministic"] = "size x%d: steps %d/%d outcome %s/%s" % (k, st, res[k][2], out, res[k][1])
                 res[k][0] = min(res[k][0], t)
     for k in (1, 2, 4):
         info["sizes"].append(len(texts[k]))
@@ -1020,7 +1046,7 @@ def run_shard(spec):
         fails, info = run_growth(fam, spec["r"])
         if info.get("nondeterministic"):
             col.error("growth %s: step count/outcome not deterministic: %s" % (fam, info["nondeterministic"]))
-        col.case(("growth", fam, spec["r"]), True, sample={"case": case, "info": info}, labels=("growth", "growth_clock_" + ("judged" if info["clock"].startswith("ratio") else "inconclusive")))
+        col.case(("growth", fam, spec["r"]), True, sample={"case": case, "info": info} if fam in ("dynexpr_var_filtered_tag", "t_quoted_tags") else None, labels=("growth", "growth_clock_" + ("judged" if info["clock"].startswith("ratio") else "inconclusive")))
         col.notes.append("growth %s: sizes %s steps %s cpu %s outcome %s clock %s" % (fam, info["sizes"], info["steps"], info["cpu"], info["outcome"], info["clock"]))
         for m, bk in fails:
             col.fail(case, m, bk, finding=attribute(case, m, bk))
